@@ -1039,7 +1039,7 @@ message M {
   message Sub {
     int32 i = 1;
   }
-  E e = 4;
+  E e = 4 [features.field_presence = EXPLICIT];
 }
 enum E {
   option features.enum_type = CLOSED;
@@ -1147,7 +1147,7 @@ enum E {
 package h;
 import "g/g.proto";
 extend g.G {
-  optional string tail = 50 [json_name = "TAIL"];
+  optional string tail = 50 [deprecated = true];
   repeated g.E es = 51 [packed = true];
 }
 message H {
